@@ -10,7 +10,7 @@ ASSUMPTIONS = ["TCP, timeouts and goroutine scheduling are not modelled (in-memo
 
 
 def run(ctx):
-    cases = pc.gen_cases(ctx, 150 if ctx.tier == "quick" else 6000, ctx.seed)
+    cases = pc.gen_cases(ctx, 150 if ctx.tier == "quick" else 3000, ctx.seed)
     ctx.last_cases = cases
     mm, ns, ok = pc.evaluate(ctx, cases, "c11")
     mm = [m for m in mm if m.get("differs") != pc.CODES[2]]     # accounting is C12's
